@@ -85,6 +85,38 @@ dst_ty!(D4E1, 4, E1);
 dst_ty!(D4E4, 4, E4);
 dst_ty!(D4E24, 4, E24);
 
+/// user-defined types whose alignment is LARGER than the 8 bytes of the tag area
+#[repr(C, align(16))]
+#[allow(dead_code)]
+pub struct A16S {
+    header: TagHeader,
+    v: [u64; 3],
+}
+impl MaybeDynSized for A16S {
+    type Header = TagHeader;
+    const BASE_SIZE: usize = size_of::<Self>();
+    fn dst_len(_: &TagHeader) {}
+}
+#[repr(C)]
+#[allow(dead_code)]
+pub struct A16D {
+    header: TagHeader,
+    tail: [u128],
+}
+impl Pointee for A16D {
+    type Metadata = usize;
+}
+impl MaybeDynSized for A16D {
+    type Header = TagHeader;
+    const BASE_SIZE: usize = 16;
+    fn dst_len(h: &TagHeader) -> usize {
+        assert!(h.size as usize >= 16);
+        let n = h.size as usize - 16;
+        assert_eq!(n % 16, 0);
+        n / 16
+    }
+}
+
 fn cast_one<T: MaybeDynSized<Header = TagHeader> + ?Sized>(ctx: &Ctx, size: u32, extra: usize, tail_len: impl Fn(&T) -> usize) -> String {
     let occ = ((size as usize).max(8) + 7) / 8 * 8 + 8 * extra;
     let mut bytes = vec![0xEEu8; occ];
@@ -142,6 +174,8 @@ pub fn cast_case(ctx: &Ctx, t: &[&str]) -> String {
         "d4e1" => d!(D4E1),
         "d4e4" => d!(D4E4),
         "d4e24" => d!(D4E24),
+        "a16s" => s!(A16S),
+        "a16d" => d!(A16D),
         c => format!("unknown-type:{}", c),
     }
 }
